@@ -15,7 +15,7 @@ cat >> "$OUT/go.mod" <<EOM
 require pgregory.net/rapid v1.3.0
 EOM
 python3 - "$OUT" <<'EOP'
-import json,os,sys,glob
+import json,os,sys,glob,re
 out=sys.argv[1]
 repo=os.environ.get("REPO","/repo")
 rep={}
@@ -26,6 +26,8 @@ for pkg in ("server","protocol","client"):
     rep[f"{repo}/{pkg}/zz_verif_vstats_test.go"]=g
     for f in sorted(glob.glob(f"/verif/harness/{pkg}/*.go")):
         b=os.path.basename(f)
+        skip=os.environ.get("VERIF_HARNESS_SKIP","")
+        if skip and re.search(skip,b): continue
         if not b.endswith("_test.go"): b=b[:-3]+"_test.go"
         rep[f"{repo}/{pkg}/zz_verif_{b}"]=f
 json.dump({"Replace":rep},open(os.path.join(out,"overlay.json"),"w"),indent=1)
